@@ -18,7 +18,7 @@ GEN_VERSION = 1
 # one fixed, distinctive value per context key (all different from every processor default)
 KEY_VALUES: Dict[str, Any] = {
     "a": 1.5, "b": 2.5, "r": 4.0, "factor": 5.0, "addend": 0.75, "path": "p_ctx.txt", "value": 9.0, "gain": 1.25,
-    "zz": 0.125, "p.q": 3.5, "nest": {"limits": {"hi": 7, "lo": 1}, "alpha": 2},
+    "zz": 0.125, "p.q": 3.5, "tagsrc": "T0", "nest": {"limits": {"hi": 7, "lo": 1}, "alpha": 2},
 }
 
 
@@ -90,6 +90,11 @@ SYMBOLS: Dict[str, dict] = {
     "ren_r_factor": dict(node=_n("rename:r:factor"), kind="ctx", op="rename", src="r", dst="factor", params=[("r", NODEF)], cfg={}, reads=["r", "factor"]),
     "ren_factor_a": dict(node=_n("rename:factor:a"), kind="ctx", op="rename", src="factor", dst="a", params=[("factor", NODEF)], cfg={}, reads=["factor", "a"]),
     "ren_tv_a": dict(node=_n("rename:t_values:a"), kind="ctx", op="rename", src="t_values", dst="a", params=[("t_values", NODEF)], cfg={}, reads=["t_values", "a"]),
+    # a rename / delete whose own key is given as a NODE parameter: the value resolves from the configuration, the key is then
+    # removed from the context — where it may not be
+    "ren_r_factor_cfg": dict(node=_n("rename:r:factor", {"r": 4.5}), kind="ctx", op="rename", src="r", dst="factor", params=[("r", NODEF)], cfg={"r": 4.5}, reads=["r", "factor"]),
+    "del_a_cfg": dict(node=_n("delete:a", {"a": 1.0}), kind="ctx", op="delete", src="a", params=[("a", NODEF)], cfg={"a": 1.0}, reads=["a"]),
+    "ren_tagsrc": dict(node=_n("rename:tagsrc:tag"), kind="ctx", op="rename", src="tagsrc", dst="tag", params=[("tagsrc", NODEF)], cfg={}, reads=["tagsrc", "tag"]),
     "del_factor": dict(node=_n("delete:factor"), kind="ctx", op="delete", src="factor", params=[("factor", NODEF)], cfg={}, reads=["factor"]),
     "del_a": dict(node=_n("delete:a"), kind="ctx", op="delete", src="a", params=[("a", NODEF)], cfg={}, reads=["a"]),
     "tmpl_a": dict(node=_n('template:"v_{r}":a'), kind="ctx", op="template", tmpl="v_{r}", dst="a", params=[("r", NODEF)], cfg={}, reads=["r", "a"]),
